@@ -428,6 +428,55 @@ func init() {
 			})
 		}
 		f.boolFact("mergeErrChanHoldsAllDiffers", mcap)
+		// C01/C06: the pre-allocation cap (maxPrealloc) only sizes slices; a variable clamped to it never
+		// bounds a read loop (which would silently truncate objects with more elements than the cap)
+		capOnly, sawClamp := true, false
+		for _, rel := range []string{"pkg/objects/table.go", "pkg/objects/block.go", "pkg/objects/str_list.go", "pkg/objects/uint_list.go",
+			"pkg/objects/float_list.go", "pkg/objects/value_counts.go", "pkg/objects/table_profile.go", "pkg/objects/block_index.go"} {
+			af := f.file(rel)
+			if af == nil {
+				continue
+			}
+			for _, d := range af.Decls {
+				fd, ok := d.(*ast.FuncDecl)
+				if !ok || fd.Body == nil {
+					continue
+				}
+				clamped := map[string]bool{}
+				ast.Inspect(fd.Body, func(n ast.Node) bool {
+					is, ok := n.(*ast.IfStmt)
+					if !ok || !strings.Contains(f.src(is.Cond), "maxPrealloc") {
+						return true
+					}
+					for _, st := range is.Body.List {
+						if as, ok := st.(*ast.AssignStmt); ok {
+							for _, l := range as.Lhs {
+								clamped[f.src(l)] = true
+								sawClamp = true
+							}
+						}
+					}
+					return true
+				})
+				if len(clamped) == 0 {
+					continue
+				}
+				ast.Inspect(fd.Body, func(n ast.Node) bool {
+					fs, ok := n.(*ast.ForStmt)
+					if !ok || fs.Cond == nil {
+						return true
+					}
+					ast.Inspect(fs.Cond, func(m ast.Node) bool {
+						if id, ok := m.(*ast.Ident); ok && clamped[id.Name] {
+							capOnly = false
+						}
+						return true
+					})
+					return true
+				})
+			}
+		}
+		f.boolFact("preallocCapNeverBoundsLoops", sawClamp && capOnly)
 		// C06: packfile header bit count
 		eh := f.funcDecl("pkg/encoding/packfile/packfile.go", "", "encodeObjTypeAndLen")
 		bt := f.declType(eh, "bits")
